@@ -6,7 +6,7 @@ import os
 HERE = os.path.dirname(os.path.abspath(__file__))
 
 CHECKS = {
-    "C01": dict(level="other", technique="abstract interpretation (affine domain over Q(pi) + rounding counter) of every conversion body; unit-symbol oracle; dispatch-table rules",
+    "C01": dict(level="other", technique="abstract interpretation (affine domain over Q(pi) + rounding counter) of every conversion body; unit-symbol oracle; dispatch-table rules; composition order of the plain-number entry points",
                 text="Decides, for all 514 units x 3 numeric types and all inputs, that ToStandard denotes exactly the affine map implied by the unit's own symbol, that FromStandard is its inverse, that the dispatch tables route each enumerator to its own routine, and decides the few-ulp clause for the 512 multiplicative units by a rigorous per-direction bound (constants evaluated exactly as IEEE round-to-nearest arithmetic in T would: <= 4.3 ulp on this tree, threshold 8) plus a coarse rounding-count bound. The affine units (degC, degF) near cancellation and the subnormal range are not decided.",
                 note="trusted: clang front end, oracle/units.py (SI/legal definitions), standard model of FP arithmetic without overflow/underflow", ref="3/C01"),
     "C07": dict(level="proof", technique="table rules over ConsistentUnits/RelatedUnitSystems initialisers + conversion factors from the affine interpretation vs products of system base units",
@@ -57,13 +57,13 @@ CHECKS = {
     "C13": dict(level="other", technique="term evaluation of every Stress/StrainRate/Strain overload of both Newtonian fluid classes; slot-wise algebraic comparison with 2 mu D (+ mu_b tr(D) I) and its inverse; leaf-set independence; override table; case analysis on conditionals over model parameters",
                 text="Decides the linear viscous law and its exact inverse for all three overloads of both classes and all numeric types, the zero stubs, the ignored strain argument and the zero bulk viscosity default. Per-precision accuracy is not decided.",
                 note="trusted: clang front end, evaluator, sympy, oracle/elasticity.py", ref="3/C13"),
-    "C02": dict(level="other", technique="data-flow / term evaluation of every conversion entry point with concrete unit enumerators; each result slot's affine map over Q(pi) compared with the composition of the Conversion kernels of C01; copying forms shown not to modify their argument",
+    "C02": dict(level="other", technique="data-flow / term evaluation of every conversion entry point with concrete unit enumerators; each result slot's affine map over Q(pi) compared with the composition of the Conversion kernels of C01, and its term with the kernels' own sequence of rounded operations; copying forms shown not to modify their argument",
                 text="Decides that construction converts once, that Value/StaticValue/Create/Print/JSON/XML/YAML(unit) and all 20 free convert overloads for every container shape apply exactly From_Y o To_X slot by slot (hence agree with the scalar conversion), that unit-to-itself is the identity map and that copying forms leave the argument unchanged. The size of the read-back rounding error is bounded only through C01.R4.",
                 note="trusted: clang front end, evaluator; quick tier: 3 units per unit type for member entry points, thorough tier: all units", ref="3/C02"),
     "C15": dict(level="other", technique="interval analysis of the decision tree of PhQ::Print<T>; string-template evaluation of all Print/JSON/XML/YAML members (JSON parsed, XML/YAML matched); operator<< = Print(); which Print<T> prints each number and through which types the value passed",
                 text="Decides notation, precision (max_digits10+1 significant digits per decade), zero handling, component order, labels, unit abbreviation and JSON well-formedness for all values and types, and that parsing uses the matching strto*. Bit-exact parse-back then follows from the IEEE round-trip theorem given a correctly rounding libc, which is trusted, not checked.",
                 note="trusted: clang front end, evaluator, libc printf/strto* correct rounding", ref="3/C15"),
-    "C20": dict(level="other", technique="structural rules over all instantiated bodies: external callees classified by resolved declaration (noexcept / allocation-only / may-throw), may-throw calls discharged by table totality or an enclosing catch(...), unchecked lookups tied to total tables, definite initialisation via the term evaluator, scans for casts to enum types and signed arithmetic, positive controls in every run; member-initialisation order in every class with state; dangling references and string views; tables through aliases and parameters",
+    "C20": dict(level="other", technique="structural rules over all instantiated bodies: external callees classified by resolved declaration (noexcept / allocation-only / may-throw), may-throw calls discharged by table totality or an enclosing catch(...), unchecked lookups tied to total tables, definite initialisation via the term evaluator, scans for casts to enum types and signed arithmetic, positive controls in every run; member-initialisation order in every class with state; dangling references and string views; tables through aliases and parameters; cycle detection in the resolved call graph with path-sensitive termination of every entry point",
                 text="Decides the clauses the statement names: every lookup hits, no exception other than bad_alloc can escape, the parsers are total, no uninitialised local or member reaches a result, no invalid enumerator or signed overflow can be produced. General memory safety beyond these clauses is not decided (static analysis cannot prove absence of all UB).",
                 note="trusted: clang front end; the callee classification table in vf_lib/props/c20.py (unclassified callees make the check inconclusive); libstdc++ default stream exception mask", ref="3/C20"),
 }
